@@ -76,9 +76,11 @@ SHIFTS = {'lshift': operator.lshift, 'rshift': operator.rshift}
 ISHIFTS = {'lshift': operator.ilshift, 'rshift': operator.irshift}
 
 BITSTRING_KINDS = ['Bits', 'BitArray', 'ConstBitStream', 'BitStream']
-PROMOTABLE = ['str', 'hexstr', 'bytes', 'bytearray', 'memoryview', 'list', 'tuple', 'gen', 'truthy', 'truthy-iter', 'bitarray']
-REFLECTABLE = {'str', 'hexstr', 'bytes', 'bytearray', 'memoryview', 'list', 'tuple', 'gen', 'truthy', 'truthy-iter'}
-ROUTES = ['bin', 'bin', 'slice', 'bytes', 'auto', 'file', 'file-limited']
+PROMOTABLE = ['str', 'hexstr', 'bytes', 'bytearray', 'memoryview', 'list', 'tuple', 'gen', 'truthy', 'truthy-iter', 'bitarray'] + util.SUBCLASS_KINDS
+BYTE_KINDS = ('bytes', 'bytearray', 'memoryview', 'bytes-sub', 'bytearray-sub', 'memoryview-ro')
+REFLECTABLE = {'str', 'hexstr', 'bytes', 'bytearray', 'memoryview', 'list', 'tuple', 'gen', 'truthy', 'truthy-iter'} | (set(util.SUBCLASS_KINDS) - {'frozenbitarray'})
+ROUTES = ['bin', 'bin', 'slice', 'bytes', 'auto', 'file', 'file-limited', 'frozenbitarray', 'frozenbitarray-kw', 'bitarray-kw',
+          'memoryview-ro']
 UINT_LIMIT = 257
 
 
@@ -158,6 +160,16 @@ def _build_receiver(c, bits=None):
         s = cls(bytes=int(padded, 2).to_bytes(len(padded) // 8, 'big'), offset=off, length=len(a))
     elif route == 'auto' and len(a) <= 200:
         s = cls('0b' + a)
+    elif route in ('frozenbitarray', 'frozenbitarray-kw', 'bitarray-kw'):
+        # built from somebody else's (possibly immutable, possibly little-endian) bitarray
+        import bitarray
+        if route == 'bitarray-kw':
+            s = cls(bitarray=bitarray.bitarray(a, endian='little' if len(a) % 2 else 'big'))
+        else:
+            fb = bitarray.frozenbitarray(a)
+            s = cls(fb) if route == 'frozenbitarray' else cls(bitarray=fb)
+    elif route == 'memoryview-ro' and len(a) % 8 == 0:
+        s = cls(memoryview(bytearray(int(a, 2).to_bytes(len(a) // 8, 'big'))).toreadonly())
     elif route in ('file', 'file-limited'):
         # backed by a file (memory-mapped while it stays whole); 'file-limited' is the first len(a) bits of a longer file
         import os
@@ -477,11 +489,11 @@ def judge(ctx, c):
 # ---- generation -----------------------------------------------------------------------------------
 def pick_kind(rng, bits, kinds=None):
     k = rng.choice(kinds or (BITSTRING_KINDS + PROMOTABLE))
-    if k in ('bytes', 'bytearray', 'memoryview') and (len(bits) % 8 or not bits):
+    if k in BYTE_KINDS and (len(bits) % 8 or not bits):
         k = rng.choice(['str', 'list', 'bitarray'])
     if k == 'hexstr' and (len(bits) % 4 or not bits):
         k = 'str'
-    if k in ('list', 'tuple', 'gen', 'truthy', 'truthy-iter') and len(bits) > 3000:
+    if k in ('list', 'tuple', 'gen', 'truthy', 'truthy-iter', 'list-sub', 'tuple-sub') and len(bits) > 3000:
         k = 'bitarray'
     return k
 
@@ -605,7 +617,7 @@ def directed(ctx):
             for a in {'1' * L, '0' * L, ('10' * L)[:L], ('0' * (L - 1) + '1') if L else ''}:
                 b = ('110' * L)[:L]
                 ops = [[k, b] for k in BITSTRING_KINDS + PROMOTABLE
-                       if not (k in ('bytes', 'bytearray', 'memoryview') and (L % 8 or not L))
+                       if not (k in BYTE_KINDS and (L % 8 or not L))
                        and not (k == 'hexstr' and (L % 4 or not L))]
                 ops = [sp + [len(b) // 2] if sp[0] in util.STREAMS else sp for sp in ops]
                 if a != '1' * L:
